@@ -543,3 +543,6 @@ func fullParen(n *Node, top bool) *Node {
 	}
 	return &c
 }
+
+// IsBareIdentifier reports whether s can be written as an unquoted identifier.
+func IsBareIdentifier(s string) bool { return !identNeedsQuote(s) }
